@@ -131,13 +131,15 @@ impl IdOf for Uz {
 }
 
 thread_local! { static GEN_CLONES: std::cell::Cell<u64> = const { std::cell::Cell::new(0) }; }
-/// No drop glue; `Clone` is hand-written and counts its calls
+/// No drop glue; `Clone` is hand-written, counts its calls globally and - through interior mutability - in the value it is
+/// called on (a clone taken from a bitwise duplicate instead of the element itself leaves that counter untouched)
 #[derive(PartialEq)]
-pub struct Gen(u32);
+pub struct Gen(u32, std::cell::Cell<u32>);
 impl Clone for Gen {
     fn clone(&self) -> Gen {
         GEN_CLONES.with(|c| c.set(c.get() + 1));
-        Gen(self.0)
+        self.1.set(self.1.get() + 1);
+        Gen(self.0, std::cell::Cell::new(0))
     }
 }
 impl Debug for Gen {
@@ -149,7 +151,7 @@ impl Elem for Gen {
     const KIND: &'static str = "no_drop_glue_observable_clone";
     const NEEDS_DROP: bool = false;
     fn mk(v: u32) -> Self {
-        Gen(v)
+        Gen(v, std::cell::Cell::new(0))
     }
     fn get(&self) -> u32 {
         self.0
@@ -162,12 +164,19 @@ impl IdOf for Gen {
     fn clone_calls() -> Option<u64> {
         Some(GEN_CLONES.with(|c| c.get()))
     }
+    fn cloned_from(&self) -> Option<u32> {
+        Some(self.1.get())
+    }
 }
 
 trait IdOf {
     fn id_of(&self) -> Option<u32>;
     /// number of `T::clone` calls made so far on this thread, for kinds that can tell
     fn clone_calls() -> Option<u64> {
+        None
+    }
+    /// how often `clone` was called on this very value, for kinds that record it in the value
+    fn cloned_from(&self) -> Option<u32> {
         None
     }
 }
@@ -349,8 +358,16 @@ impl<T: Elem + IdOf + Clone + Debug, N: ArrayLength> Run<T, N> {
 
     fn use_clone(&mut self, u: Use) -> Result<(), String> {
         let calls_before = T::clone_calls();
+        let marks_before: Vec<Option<u32>> = self.it.as_slice().iter().map(|e| e.cloned_from()).collect();
         let c = self.it.clone();
         let want = self.model_vals();
+        for (i, (e, b)) in self.it.as_slice().iter().zip(&marks_before).enumerate() {
+            if let (Some(now), Some(before)) = (e.cloned_from(), b) {
+                if now != before + 1 {
+                    return Err(format!("clone: T::clone was not called on the iterator's own element #{i} (its per-value clone counter went from {before} to {now})"));
+                }
+            }
+        }
         if let (Some(a), Some(b)) = (calls_before, T::clone_calls()) {
             if b - a != want.len() as u64 {
                 return Err(format!("clone: T::clone was called {} times for {} remaining elements", b - a, want.len()));
